@@ -17,7 +17,7 @@ from ..engines import e3_tables as e3
 from ..engines import e2_state as e2
 from ..engines import e13_links as e13
 from ..extract import AnalysisBroken
-from .c12 import RECT
+from .c12 import RECT, BASE, _public_methods
 from ..extract import VERIF
 
 LEVEL = "other"
@@ -33,7 +33,8 @@ def run(chk):
     chk.rule("ALLOC.noexcept", "IR call-graph: operator new is unreachable from every library destructor and noexcept function (libstdc++ bodies "
              "followed; only container.resize(0) is cut); no try/catch; no new(std::nothrow)")
     chk.rule("INT64.product", "no multiplication whose result type is a signed 64-bit integer")
-    chk.rule("STALE.pointers", "RectClip64 / RectClipLines64: results_, edges_[8], start_locs_ (raw pointers into op_container_) are empty "
+    chk.rule("STALE.pointers", "ClipperBase: horz_seg_list_, horz_join_list_, intersect_nodes_ (raw pointers to OutPt / Active) and outrec_list_ are empty at "
+             "every normal exit of every public method (CleanUp frees what they point to); RectClip64 / RectClipLines64: results_, edges_[8], start_locs_ (raw pointers into op_container_) are empty "
              "again at every back edge of the path loop and at every exit - no pointer into a destroyed deque survives")
     chk.rule("HOT.guard", "AddOutPt / AddLocalMaxPoly / IsFront / GetLastOp / JoinOutrecPaths dereference e.outrec: at each of the 47 call sites the edge "
              "is known to carry output (dominating IsHotEdge test, or made hot by AddLocalMinPoly / StartOpenPath on the path); 9 sites rely on "
@@ -53,6 +54,21 @@ def run(chk):
         e3.comparators(db, chk, cfg)
         e9.rule_hot_guard(db, chk, cfg)
         e13.rule_links(db, chk, cfg)
+        # dangling OutPt / Active pointers in the sweep engine: the vectors that hold raw pointers into the output rings and the AEL
+        # (horz_seg_list_, horz_join_list_, intersect_nodes_) and the owning outrec_list_ are empty whenever a public method returns -
+        # CleanUp frees every OutPt/OutRec, so an entry that survives it dangles and is dereferenced by the next Execute
+        for cls in (["ClipperBase", "Clipper64"], ["ClipperBase", "ClipperD"]):
+            eng0 = e2.E2(db, chk, cfg, cls)
+            PTRS = dict(BASE)
+            PTRS["clean"] = {k: 1 for k in ("intersect_nodes_", "horz_seg_list_", "horz_join_list_", "outrec_list_")}
+            PTRS["allow"] = dict(BASE["allow"])
+            for k in BASE["clean"]:
+                if k not in PTRS["clean"]:
+                    PTRS["allow"][k] = "holds no pointers (decided under C12)"
+            pubs = _public_methods(db, set(cls))
+            if len(pubs) < 9:
+                raise AnalysisBroken("only %d public methods found for %s" % (len(pubs), cls))
+            e2.rule_clean(eng0, chk, cfg, pubs, PTRS, [{}], rule="STALE.pointers")
         # dangling OutPt2 pointers: the lists that point into op_container_ are emptied whenever it is reset
         eng = e2.E2(db, chk, cfg, ["RectClip64", "RectClipLines64"])
         for q in ("RectClip64::Execute", "RectClipLines64::Execute"):
